@@ -9,7 +9,7 @@
    sizes with 1 <= headroom <= size (64 KiB / 32 KiB included), all source lengths and all
    short-read behaviours of the source. *)
 From Coq Require Import List Bool NArith Lia.
-From PV Require Import Common.Cases C17.Model C17.Spec C17.ProofsData C17.ProofsBuf C17.ProofsWrap.
+From PV Require Import Common.Cases C17.Model C17.Spec C17.ProofsData C17.ProofsBuf C17.ProofsWrap C17.ProofsIce.
 Import ListNotations.
 Local Open Scope N_scope.
 
@@ -261,6 +261,143 @@ Proof.
   vm_compute. intros (_ & _ & (H & _) & _). discriminate H.
 Qed.
 Print Assumptions C17_icecast_large_chunk_refuted.
+
+(* ---------------------------------------------------------------- the producer side in detail *)
+
+(* _download_stream without icy-metaint, for EVERY pattern of short reads of the HTTP body (one
+   byte, n-1 bytes, exact; empty only at the real end) and every interleaving with the
+   reader: the reader's history is accepted by the reference whose stream is the body; what
+   was read from the body and not delivered is stored; the unread rest of the body is intact;
+   the end is signalled only when the whole body has been read (a short non-empty read is
+   not the end) and the loop never gets stuck. *)
+Theorem C17_icecast_plain_body_fidelity : forall block size head prot audio caps b ops,
+  1 <= head -> 1 <= block -> buf_new size head prot = Some b ->
+  let s0 := mki b [(0, audio)] caps 0 false false in
+  let tr := ice2_trace block 0 ops s0 in
+  let s' := ice2_state block 0 ops s0 in
+  let c := spec_cursor 0 tr in
+  wrap_spec audio 0 tr /\
+  b_pos (i_buf s') = c /\
+  bytes_of (unread (i_buf s')) = nseq c (i_taken s' - c) /\ c <= i_taken s' /\
+  bytes_of (i_body s') = nseq (i_taken s') (audio - i_taken s') /\
+  (i_stop s' = true -> i_taken s' = audio) /\
+  i_spin s' = false.
+Proof.
+  intros block size head prot audio caps b ops H1 Hbl Hn. cbv zeta.
+  set (s0 := mki b [(0, audio)] caps 0 false false).
+  pose proof (binv_new _ _ _ _ H1 Hn) as Hb.
+  assert (P0 : b_pos b = 0).
+  { unfold buf_new in Hn. destruct (size <? head); [discriminate|]. now inversion Hn. }
+  assert (Hi : plain_inv audio 0 s0).
+  { unfold plain_inv, s0. cbn [i_taken i_body i_spin i_stop dlen bytes_of].
+    rewrite app_nil_r, N.add_0_r. repeat split; try reflexivity. discriminate. }
+  assert (Hw : winv (bw s0 0 audio)).
+  { unfold winv, bw, s0. cbn [w_buf w_cur w_len i_buf]. split; [exact Hb | lia]. }
+  assert (Ibuf : forall a s s', plain_inv audio a s -> i_body s' = i_body s -> i_caps s' = i_caps s ->
+                 i_taken s' = i_taken s -> i_stop s' = i_stop s -> i_spin s' = i_spin s -> plain_inv audio a s').
+  { intros a s s' Hp E1 E2 E3 E4 E5. unfold plain_inv in *. rewrite E1, E3, E4, E5. exact Hp. }
+  destruct (ice2_histories block 0 audio (plain_inv audio) Ibuf
+              (fun a s Hp Hq => plain_download block audio a s Hbl Hp Hq)
+              ops 0 s0 Hi Hw) as (T1 & (a' & (Ea & Tb & Tt & Tspin & Tstop) & Tw) & T3).
+  change (b_pos (i_buf s0)) with (b_pos b) in T1, T3. rewrite P0 in T1, T3.
+  split; [exact T1|]. split; [exact T3|]. subst a'.
+  pose proof (winv_unread _ Tw) as U. destruct (winv_pos _ Tw) as [_ U2].
+  cbn [bw w_buf w_cur] in U, U2. rewrite T3 in U, U2.
+  split; [exact U|]. split; [exact U2|].
+  split; [rewrite Tb; f_equal; lia|]. split; [|exact Tspin].
+  intro Hs. specialize (Tstop Hs). lia.
+Qed.
+Print Assumptions C17_icecast_plain_body_fidelity.
+
+(* ... and once the body has been read completely, the next turn of the loop signals it. *)
+Theorem C17_icecast_plain_end_signalled : forall block s,
+  i_stop s = false -> i_spin s = false -> buf_fits block (i_buf s) = true -> dlen (i_body s) = 0 ->
+  i_stop (ice2_download block 0 s) = true.
+Proof. exact plain_end_signalled. Qed.
+Print Assumptions C17_icecast_plain_end_signalled.
+
+(* With icy-metaint m <= BLOCK_SIZE, EXACT reads and a body made of complete frames (m audio
+   bytes, a length byte l < 1000, 16*l metadata bytes; empty and non-empty blocks): for every
+   interleaving the reader's history is accepted by the reference whose stream is the audio
+   alone - no length or metadata byte ever reaches the reader, no audio byte is lost - and
+   the unread rest of the body is again a sequence of complete frames. *)
+Theorem C17_icecast_icy_exact_fidelity : forall block m size head prot ls b ops,
+  1 <= head -> 1 <= m -> m <= block -> Forall (fun l => l < 1000) ls ->
+  buf_new size head prot = Some b ->
+  let total := m * N.of_nat (length ls) in
+  let s0 := mki b (icy_body m 0 ls) [] 0 false false in
+  let tr := ice2_trace block m ops s0 in
+  let s' := ice2_state block m ops s0 in
+  let c := spec_cursor 0 tr in
+  wrap_spec total 0 tr /\
+  b_pos (i_buf s') = c /\
+  exists a ls',
+    bytes_of (unread (i_buf s')) = nseq c (a - c) /\ c <= a /\
+    bytes_of (i_body s') = bytes_of (icy_body m a ls') /\
+    a + m * N.of_nat (length ls') = total /\ i_stop s' = false.
+Proof.
+  intros block m size head prot ls b ops H1 Hm Hmb Hls Hn. cbv zeta.
+  set (total := m * N.of_nat (length ls)). set (s0 := mki b (icy_body m 0 ls) [] 0 false false).
+  pose proof (binv_new _ _ _ _ H1 Hn) as Hb.
+  assert (P0 : b_pos b = 0).
+  { unfold buf_new in Hn. destruct (size <? head); [discriminate|]. now inversion Hn. }
+  assert (Hi : icy_inv m total 0 s0).
+  { exists ls. unfold s0. cbn [i_caps i_stop i_body]. repeat split; auto. }
+  assert (Hw : winv (bw s0 0 total)).
+  { unfold winv, bw, s0. cbn [w_buf w_cur w_len i_buf]. split; [exact Hb | lia]. }
+  assert (Ibuf : forall a s s', icy_inv m total a s -> i_body s' = i_body s -> i_caps s' = i_caps s ->
+                 i_taken s' = i_taken s -> i_stop s' = i_stop s -> i_spin s' = i_spin s -> icy_inv m total a s').
+  { intros a s s' Hp E1 E2 E3 E4 E5. unfold icy_inv in *. rewrite E1, E2, E4. exact Hp. }
+  destruct (ice2_histories block m total (icy_inv m total) Ibuf
+              (fun a s Hp Hq => icy_download block m total a s Hm Hmb Hp Hq)
+              ops 0 s0 Hi Hw) as (T1 & (a' & (ls' & Tc & Tstop & Tb & _ & Ttot) & Tw) & T3).
+  change (b_pos (i_buf s0)) with (b_pos b) in T1, T3. rewrite P0 in T1, T3.
+  split; [exact T1|]. split; [exact T3|]. exists a', ls'.
+  pose proof (winv_unread _ Tw) as U. destruct (winv_pos _ Tw) as [_ U2].
+  cbn [bw w_buf w_cur] in U, U2. rewrite T3 in U, U2. auto.
+Qed.
+Print Assumptions C17_icecast_icy_exact_fidelity.
+
+(* The two side conditions are needed for the code as it stands.
+   (a) End of the body (finding C17:icecast:end-of-body-spins-tail-lost): icy-metaint 5, 17
+   audio bytes: after three frames _readall(5) gets the last 2 audio bytes and then reads b""
+   for ever: the loop is stuck, the end is never signalled, the reader gets 15 of 17 bytes. *)
+Theorem C17_icecast_icy_end_spins_refuted :
+  exists block m b body ops,
+    let s' := ice2_state block m ops (mki b body [] 0 false false) in
+    bytes_of body = nseq 0 5 ++ [1000] ++ nseq 5 5 ++ [1001] ++ nseq 2000 16 ++ nseq 10 5 ++ [1000] ++ nseq 15 2 /\
+    i_spin s' = true /\ i_stop s' = false /\ i_body s' = [] /\ buf_size (i_buf s') = 0 /\
+    ice2_trace block m ops (mki b body [] 0 false false) = [(ORead (Some 64) None, RData [(0, 5); (5, 5); (10, 5)])].
+Proof.
+  exists 8, 5, (mkbuf [] 64 32 0 true false),
+    [(0, 5); (1000, 1); (5, 5); (1001, 1); (2000, 16); (10, 5); (1000, 1); (15, 2)],
+    [IDownload 0; IDownload 0; IDownload 0; IDownload 0; IRead 64].
+  vm_compute. repeat split; reflexivity.
+Qed.
+Print Assumptions C17_icecast_icy_end_spins_refuted.
+
+(* (b) Short read (finding C17:icecast:readall-overreads-on-short-read): icy-metaint 2, the first
+   raw.read(2) returns 1 byte: _readall asks for 2 bytes again and returns 3 - the length
+   byte is add()ed as audio and reaches the reader. *)
+Theorem C17_icecast_icy_short_read_refuted :
+  exists block m b ls cap ops d,
+    Forall (fun l => l < 1000) ls /\ 1 <= m /\ m <= block /\
+    let s0 := mki b (icy_body m 0 ls) [cap] 0 false false in
+    ice2_trace block m ops s0 = [(ORead (Some 3) None, RData d)] /\
+    bytes_of d = [0; 1; 1000] /\
+    ~ wrap_spec (m * N.of_nat (length ls)) 0 (ice2_trace block m ops s0).
+Proof.
+  exists 4, 2, (mkbuf [] 64 32 0 true false), (repeat 0 150), (Some 1), [IDownload 0; IRead 3],
+    [(0, 1); (1, 1); (1000, 1)].
+  split; [apply Forall_forall; intros x Hx; apply repeat_spec in Hx; subst x; lia|].
+  split; [lia|]. split; [lia|]. cbv zeta.
+  assert (E : ice2_trace 4 2 [IDownload 0; IRead 3]
+                (mki (mkbuf [] 64 32 0 true false) (icy_body 2 0 (repeat 0 150)) [Some 1] 0 false false)
+              = [(ORead (Some 3) None, RData [(0, 1); (1, 1); (1000, 1)])]) by (vm_compute; reflexivity).
+  rewrite E. split; [reflexivity|]. split; [reflexivity|].
+  cbn [wrap_spec]. unfold read_ok. intros ((H & _) & _). vm_compute in H. discriminate H.
+Qed.
+Print Assumptions C17_icecast_icy_short_read_refuted.
 
 (* ================================================================ adequacy of the comparison *)
 
